@@ -70,6 +70,8 @@ type wnFile struct {
 	deleted  bool
 	uploadPin bool
 	uncertain bool // an operation on it was abandoned: no assertion about it
+	everCached bool // node 0 downloaded it at some point (it had a gc-index entry)
+	everUnpinned bool // it was unpinned at some point (unpinning enters a file into the gc index)
 }
 
 type wnWorld struct {
@@ -205,6 +207,7 @@ func (w *wnWorld) exec1(phase int, o gosim.Op) {
 			}
 			w.mu.Lock()
 			f.cached, f.deleted = true, false
+			f.everCached = true
 			w.mu.Unlock()
 			r.Count("probe_cached")
 		} else {
@@ -256,6 +259,7 @@ func (w *wnWorld) exec1(phase int, o gosim.Op) {
 		if code == 200 {
 			w.mu.Lock()
 			f.pinned = false
+			f.everUnpinned = true
 			w.mu.Unlock()
 		}
 	case "delete":
@@ -383,7 +387,7 @@ func wnExec(prop string) func(r *gosim.Run) {
 		}
 		w.c = nkNewCluster(r)
 		var err error
-		if w.n0, err = w.c.AddNode(nkOpts{Capacity: w.cap}); err != nil {
+		if w.n0, err = w.c.AddNode(nkOpts{Capacity: w.cap, Persistent: wnHasOp(r.Plan.Ops, "restart")}); err != nil {
 			r.Violate("setup", "%v", err)
 		}
 		if w.n1, err = w.c.AddNode(nkOpts{Capacity: 100000}); err != nil {
@@ -475,24 +479,49 @@ func wnFmtGC(d *nkDump) string {
 
 // ---- C12: GC never deletes pinned or uploaded chunks, never changes a pin count ----
 
-func (w *wnWorld) liveUploadedChunks() map[string]int64 {
+// liveUploadedChunks: chunk -> a live local upload containing it. A chunk that
+// also belongs to a file the node downloaded (cached) at some point is tagged:
+// the known defect family "eviction of a cached file removes chunks that were
+// uploaded/pinned since" is kept apart from every other way to lose a chunk.
+func (w *wnWorld) liveUploadedChunks() (map[string]int64, map[string]string) {
 	out := map[string]int64{}
-	for _, f := range w.sortedFiles() {
-		if f.local && !f.deleted {
+	cachedToo := map[string]string{}
+	files := w.sortedFiles()
+	for _, f := range files {
+		if f.local && !f.deleted && !f.uncertain {
 			for _, c := range f.chunks {
 				out[c] = f.id
 			}
 		}
 	}
-	return out
+	for _, f := range files {
+		if f.everUnpinned {
+			for _, c := range f.chunks {
+				cachedToo[c] = "@chunk-of-unpinned-file"
+			}
+		}
+	}
+	for _, f := range files {
+		if f.everCached || f.uncertain {
+			for _, c := range f.chunks {
+				cachedToo[c] = "@chunk-of-cached-file"
+			}
+		}
+	}
+	return out, cachedToo
 }
+
+// wnTag keeps the two known ways a file becomes collectable (it was downloaded,
+// or it was unpinned) apart from every other way to lose a chunk.
+func wnTag(class string, tag string) string { return class + tag }
 
 func (w *wnWorld) oracleC12() {
 	// (a) whatever collections ran so far: chunks of live local uploads are present
 	d1 := w.dump()
-	for c, fid := range w.liveUploadedChunks() {
+	up, cachedToo := w.liveUploadedChunks()
+	for _, c := range nkSortedKeys(up) {
 		if _, ok := d1.Data[c]; !ok {
-			w.r.Violate("uploaded-chunk-lost", "chunk %s of locally uploaded file %d (not deleted) is no longer stored", c[:8], fid)
+			w.r.Violate(wnTag("uploaded-chunk-lost", cachedToo[c]), "chunk %s of locally uploaded file %d (not deleted) is no longer stored", c[:8], up[c])
 		}
 	}
 	// (b) one exclusive collection run with all clients paused
@@ -512,21 +541,21 @@ func (w *wnWorld) oracleC12() {
 		w.r.Count("probe_c12_pinned_seen")
 		if _, ok := d2.Data[a]; !ok {
 			if _, was := d1.Data[a]; was {
-				w.r.Violate("pinned-chunk-deleted", "collection run deleted chunk %s whose pin count was %d", a[:8], cnt)
+				w.r.Violate(wnTag("pinned-chunk-deleted", cachedToo[a]), "collection run deleted chunk %s whose pin count was %d", a[:8], cnt)
 			}
 		}
 		if d2.Pin[a] != cnt {
-			w.r.Violate("pin-count-changed", "collection run changed the pin count of chunk %s from %d to %d", a[:8], cnt, d2.Pin[a])
+			w.r.Violate(wnTag("pin-count-changed", cachedToo[a]), "collection run changed the pin count of chunk %s from %d to %d", a[:8], cnt, d2.Pin[a])
 		}
 	}
 	for _, a := range nkSortedKeys(d2.Pin) {
 		if _, ok := d1.Pin[a]; !ok {
-			w.r.Violate("pin-count-changed", "collection run created a pin entry for chunk %s (count %d)", a[:8], d2.Pin[a])
+			w.r.Violate(wnTag("pin-count-changed", cachedToo[a]), "collection run created a pin entry for chunk %s (count %d)", a[:8], d2.Pin[a])
 		}
 	}
-	for c, fid := range w.liveUploadedChunks() {
+	for _, c := range nkSortedKeys(up) {
 		if _, ok := d2.Data[c]; !ok {
-			w.r.Violate("uploaded-chunk-deleted", "collection run deleted chunk %s of locally uploaded file %d", c[:8], fid)
+			w.r.Violate(wnTag("uploaded-chunk-deleted", cachedToo[c]), "collection run deleted chunk %s of locally uploaded file %d", c[:8], up[c])
 		}
 	}
 }
@@ -617,4 +646,13 @@ func init() {
 			Native: []string{"github.com/gauss-project/aurorafs/pkg/bmt."}, Real: real, Stubs: stubs})
 	}
 	_ = context.Background
+}
+
+func wnHasOp(ops []gosim.Op, k string) bool {
+	for _, o := range ops {
+		if o.K == k {
+			return true
+		}
+	}
+	return false
 }
